@@ -90,7 +90,7 @@ def q_octx(c, steps):
 
 def q_ostep(o, steps):
     ev = "[" + ";".join(f"({q_nl(n)},{_n(g)})" for n, g in o["events"]) + "]"
-    return "(Build_ostep %s [%s])" % (ev, ";".join(q_octx(c, steps) for c in o["ctxs"]))
+    return "(Build_ostep %s [%s] %s %s)" % (ev, ";".join(q_octx(c, steps) for c in o["ctxs"]), q_nl(o.get("srv", [])), q_nl(o.get("pongs", [])))
 
 
 def q_case(case, obs):
@@ -106,8 +106,9 @@ def q_case(case, obs):
     qs = []
     for st, tn in zip(steps, names):
         cfg = "[" + ";".join(f"({int(a)},{v})" for a, v in sorted(st["cfg"].items(), key=lambda kv: int(kv[0]))) + "]"
-        qs.append(f"(Build_rstep {tn} {cfg} {q_arg(st['arg'])})")
-    return "(%s Build_rcase [%s] [%s])" % (" ".join(lets), ";".join(qs), ";".join(q_ostep(o, steps) for o in obs.get("steps", [])))
+        qs.append(f"(Build_rstep {tn} {cfg} {q_arg(st['arg'])} {int(st.get('opts', 0))})")
+    return "(%s Build_rcase %s [%s] [%s])" % (" ".join(lets), _b(case.get("legacy")), ";".join(qs),
+                                             ";".join(q_ostep(o, steps) for o in obs.get("steps", [])))
 
 
 # ------------------------------------------------------------------------------------------------
@@ -121,6 +122,8 @@ class Builder:
         self.files = {}
         self.cfg = {}
         self.steps = []
+        self.opts = 0       # bit 0: hass_is_global, bit 1: allow_all_imports off
+        self.ghosts = []    # [pid, "link" | "dir"]: glob-matched entries that are not readable files
         self.gen = 0
         self.clock = 0
         self.style = {}  # package root -> "rel" | "abs" (form of sibling -> sibling imports)
@@ -154,7 +157,8 @@ class Builder:
         self.files = new
 
     def reload(self, arg=None):
-        self.steps.append({"files": copy.deepcopy(self.files), "cfg": dict(self.cfg), "arg": arg})
+        self.steps.append({"files": copy.deepcopy(self.files), "cfg": dict(self.cfg), "arg": arg, "opts": self.opts,
+                           "ghosts": copy.deepcopy(self.ghosts) if self.steps else []})
 
     def case(self, legacy=False, tags=()):
         return {"legacy": legacy, "steps": self.steps, "tags": sorted(tags)}
@@ -222,6 +226,39 @@ def structured_cases():
     b.reload(); b.reload()
     b.write([MODULES, 61]); b.reload()
     out.append(b.case(tags=["import-failure"]))
+    # 7 a change of the global options (everything reloads once), then ordinary edits: only what changed reloads
+    for legacy in (False, True):
+        b = Builder()
+        b.write([10], [A(60)]); b.write([11]); b.write([MODULES, 60]); b.write([SCRIPTS, 20])
+        b.reload(); b.reload()
+        b.opts = 1; b.reload()
+        b.touch([10]); b.reload()
+        b.write([11]); b.reload([FILE, 11])
+        b.opts = 3; b.touch([SCRIPTS, 20]); b.reload(); b.reload()
+        b.opts = 0; b.reload([FILE, 10]); b.touch([MODULES, 60]); b.reload()
+        out.append(b.case(legacy=legacy, tags=["global-options"]))
+    # 8 files that fail after defining their service and trigger (dangling import), both subsystems; repaired; deleted
+    for legacy in (False, True):
+        b = Builder()
+        b.cfg = {"40": 1}
+        b.write([10]); b.write([11], [A(GHOST_MOD)]); b.write([APPS, 40, INIT], [R(50)]); b.write([APPS, 40, 50], [A(GHOST_MOD)])
+        b.reload()
+        b.write([10], [A(60), A(GHOST_MOD)]); b.write([MODULES, 60]); b.reload()
+        b.write([10], [A(60)]); b.write([11]); b.reload()
+        b.write([APPS, 40, 50]); b.reload()
+        b.delete([10]); b.delete([11]); b.reload()
+        b.reload("*")
+        out.append(b.case(legacy=legacy, tags=["load-failure"]))
+    # 9 glob-matched entries that are not readable files (dangling symlinks, a directory named *.py) among ordinary edits
+    b = Builder()
+    b.write([10]); b.write([SCRIPTS, 20]); b.write([MODULES, 60])
+    b.reload()
+    b.ghosts = [[pid([SCRIPTS, 24]), "link"]]; b.write([10]); b.write([12]); b.reload()
+    b.ghosts = [[pid([SCRIPTS, 24]), "link"], [pid([13]), "dir"], [pid([MODULES, 64]), "link"]]
+    b.write([11], [A(60)]); b.touch([SCRIPTS, 20]); b.reload()
+    b.write([12], [A(64)]); b.reload([FILE, 12]); b.reload("*")
+    b.ghosts = []; b.delete([12]); b.reload()
+    out.append(b.case(legacy=True, tags=["ghost-entries"]))
     return out
 
 
@@ -280,7 +317,7 @@ class RandomTree:
             there = self.exists([MODULES, m]) or self.exists([MODULES, m, INIT])
             if rng.random() < (0.4 if there else 0.03):
                 imps.append(A(m))
-        if rng.random() < 0.02:
+        if rng.random() < 0.04:
             imps.append(A(GHOST_MOD))
         if in_pkg:
             sibs = APP_SIBS if top == APPS else MOD_SIBS
@@ -363,8 +400,18 @@ class RandomTree:
         elif r < 0.72 and existing:
             b.delete(rng.choice(existing))
             self.tags.add("delete")
-        elif r < 0.86 and existing:
+        elif r < 0.84 and existing:
             self.toggle_hash(rng.choice(existing))
+        elif r < 0.90:
+            b.opts ^= rng.choice([1, 2])
+            self.tags.add("global-options")
+        elif r < 0.93:
+            g = rng.choice([[pid([SCRIPTS, 24]), "link"], [pid([13]), "dir"], [pid([MODULES, 64]), "link"], [pid([APPS, 42]), "link"]])
+            if g in b.ghosts:
+                b.ghosts.remove(g)
+            else:
+                b.ghosts.append(g)
+            self.tags.add("ghost-entries")
         else:
             a = str(rng.choice(APPS_IDS))
             if a in b.cfg and rng.random() < 0.5:
